@@ -227,7 +227,8 @@ func genC02(tier string, seed uint64, idx int) *simkit.Plan {
 }
 
 func ttlChoices() []string {
-	return []string{"1m", "2m", "3m", "5m", "59m", "1h", "2h", "1d", "1w", "1M", "1y"}
+	// the last two exceed 2^32 seconds (arithmetic in 32-bit seconds wraps above 136 years)
+	return []string{"1m", "2m", "3m", "5m", "59m", "1h", "2h", "1d", "1w", "1M", "1y", "137y", "200y"}
 }
 
 func genAdv(rng *simkit.Rand, volTtlMin int) simkit.Step {
@@ -417,6 +418,7 @@ func genC09(tier string, seed uint64, idx int) *simkit.Plan {
 	clientTs := rng.Chance(1, 3)
 	rewrites := rng.Chance(1, 3)
 	maxKey := 100
+	bigAdv := false
 	n := rng.Range(4, 20)
 	for i := 0; i < n; i++ {
 		switch rng.Pick(4, 1, 4, 4, 1, 1) {
@@ -450,7 +452,14 @@ func genC09(tier string, seed uint64, idx int) *simkit.Plan {
 			if m == 0 || rng.Chance(1, 3) {
 				m = int(ttlMinutes(ttlChoices()[rng.Intn(6)]))
 			}
-			p.Add(genAdv(rng, m))
+			if wrapped := int64(volMin) * 60 % (1 << 32); int64(volMin)*60 >= 1<<32 && !bigAdv && rng.Chance(1, 2) {
+				// a TTL above 2^32 seconds: a clock jump ages the blobs to where 32-bit second arithmetic would place
+				// the expiry (once per run: the clock must stay below the year 2262)
+				bigAdv = true
+				p.Add(simkit.St("jump", rng.Uint64(), "sec", wrapped+[]int64{-2, 1, 61, 86400}[rng.Intn(4)]))
+			} else if int64(m)*60 < 1<<31 {
+				p.Add(genAdv(rng, m))
+			}
 			p.Add(simkit.St("check", rng.Uint64()))
 		case 4:
 			algo := 1 + rng.Intn(2)
